@@ -309,10 +309,23 @@ def ev(t_ticks, target, etype="Request", daemon=False, **ctx):
     return Event(time=T(t_ticks), event_type=etype, target=target, context=dict(ctx), daemon=daemon)
 
 
-def mksim(entities, end_ticks, sources=(), events=(), probes=()):
+def _fresh(e):
+    """Re-create a plain pre-run Event *after* the Simulation was constructed.  ``Simulation.__init__`` resets the
+    global tie-break counter, so an Event object created before the constructor carries an index that depends on
+    what was built earlier in the process (see family ``prebuilt_events``, which keeps that usage on purpose);
+    every other builder hands its initial events over in list order with post-construction indices."""
+    if type(e) is not Event:
+        return e
+    f = Event(time=e.time, event_type=e.event_type, target=e.target, daemon=e.daemon, context=e.context,
+              on_complete=list(e.on_complete))
+    f.context["id"] = str(f._id)
+    return f
+
+
+def mksim(entities, end_ticks, sources=(), events=(), probes=(), keep_prebuilt=False):
     sim = Simulation(entities=list(entities), sources=list(sources), probes=list(probes), end_time=T(end_ticks))
     for e in events:
-        sim.schedule(e)
+        sim.schedule(e if keep_prebuilt else _fresh(e))
     return sim
 
 
@@ -2287,3 +2300,22 @@ def f_queued_resource_custom(case):
     b = poisson_source("b", srv, 120.0, n, case["seed"] + 1)
     sim = mksim([srv, sink], n + 300, sources=[a, b])
     return Scenario(sim, workload=2 * n)
+
+
+@family("prebuilt_events", "strkeys")
+def f_prebuilt_events(case):
+    """The usage of the repo's own examples (crdt_convergence.py, raft_leader_election.py, ...): the initial events
+    are built first, the Simulation is constructed afterwards, then the events are scheduled -- here with a source
+    and post-construction events that tie with them on the tick grid."""
+    from happysimulator.components.server.server import Server
+    k = K(case)
+    sink = Sink("sink")
+    srv = Server("srv", concurrency=1, service_time=ConstantLatency(ticks(1 + k[0] % 2)), queue_policy=mk_policy(k[1] % 3, 0, 0, 0, {}),
+                 downstream=sink)
+    n = 30
+    pre = [Event(time=T(2 + 2 * i), event_type="Prebuilt", target=srv, context={"prio": i % 3, "created_at": T(2 + 2 * i)}) for i in range(n)]
+    src = const_source("src", srv, 2, 2 * n, case["seed"])                 # ticks at 2, 4, 6, ... : ties with the prebuilt events
+    sim = mksim([srv, sink], 2 * n + 200, sources=[src], events=pre, keep_prebuilt=True)
+    for i in range(n // 2):
+        sim.schedule(Event(time=T(2 + 4 * i), event_type="Late", target=srv, context={"prio": 1, "created_at": T(2 + 4 * i)}))
+    return Scenario(sim, workload=3 * n)
